@@ -407,6 +407,52 @@ def w10(ctx, rid):
         raise core.AnchorLost('tools reader is_eof: %d' % n)
 
 
+def w11(ctx, rid):
+    """a validation tool that is generic over the key type accepts every index the storage can produce for that key type: it
+    loads the index with its own type parameter, not through the fixed table of key sizes (4..128) of the untyped reader"""
+    prog = ctx.prog
+    n = 0
+    L, E = prog.may_reach()
+    # the untyped readers: functions that instantiate the index loader for several concrete key types
+    dispatch = set()
+    for f in prog.fns.values():
+        if not f.file.startswith('src/tools/'):
+            continue
+        tys = set()
+        for c in f.calls:
+            m = [a for a in core.generic_apps(c.full) if 'ArrayKey' in a[0]] if 'ArrayKey<' in c.full else []
+            if 'ArrayKey<' in c.full:
+                import re
+                tys |= set(re.findall(r'ArrayKey<(\d+)>', c.full))
+        if len(tys) >= 3:
+            dispatch.add(prog.fns[f.id].root)
+    for f in prog.fns.values():
+        if not f.file.startswith('src/tools/') or f.id != prog.fns[f.id].root or not f.is_pub:
+            continue
+        params = {pn for (pn, t) in f.bounds if t.endswith('::Key') or t.endswith('Key<\'a>') or 'storage::key::Key' in t}
+        if not params:
+            continue
+        fam = prog.family(f.id)
+        loads = [c for g in fam for c in prog.fns[g].calls if c.name == 'from_file' and 'FileIndex' in c.full]
+        reach = set()
+        for g in fam:
+            reach |= set(L.get(g, ()))
+        uses_dispatch = sorted(d for d in dispatch if d in reach or any(prog.fns[x].root == d for x in reach))
+        if not loads and not uses_dispatch:
+            continue
+        n += 1
+        key = 'typed-tool-loads-typed|%s' % f.id
+        typed = [c for c in loads if any(('<%s>' % p) in c.full or ('<%s,' % p) in c.full for p in params)]
+        if uses_dispatch:
+            ctx.bad(rid, key, f.where(), 'the tool is generic over the key type but reads the index through `%s`, which only knows a fixed set of key sizes: a well-formed index written with another key length is rejected' % uses_dispatch[0].split('::')[-1])
+        elif typed:
+            ctx.ok(rid, key, typed[0].where(), 'loads the index as BPTreeFileIndex<%s>' % sorted(params)[0])
+        else:
+            ctx.bad(rid, key, f.where(), 'the tool is generic over the key type but does not load the index with that type')
+    if n < 1:
+        raise core.AnchorLost('key-generic index tools: %d' % n)
+
+
 RULES = [
     Rule('C16.W1', 'the tools\' record writer stamps its own position into blob_offset (and recomputes the header CRC) before serialising a header', w1, 1),
     Rule('C16.W2', 'the recovered output is re-validated whenever validation was requested', w2, 1),
@@ -417,5 +463,6 @@ RULES = [
     Rule('C16.W8', 'the skip after a bad header never trusts offsets stored in that header', w8, 1),
     Rule('C16.W9', 'migration passes the source version (as read) to both preprocessors', w9, 2),
     Rule('C16.W10', 'the tools reader reports end of input only at position >= len (bare fields)', w10, 1),
+    Rule('C16.W11', 'a key-generic validation tool loads the index with its own key type, not through the fixed key-size table', w11, 1),
     Rule('C16.W7', 'the index tools load through the validating loader and validate every reported header', w7, 2),
 ]
